@@ -431,6 +431,7 @@ class BaseParser:
         result = {}
         dependencies = set()
         unprovided_fields = set()
+        rejected_fields = set()
         options = context.options
 
         for key, value in data.items():
@@ -463,6 +464,8 @@ class BaseParser:
 
             parsed = field.parse_value(value, context=context)
             if unprovided(parsed):
+                # provided but rejected (error already handled) or excluded: neither absent nor defaulted again
+                rejected_fields.add(name)
                 continue
 
             result[name] = parsed
@@ -475,7 +478,7 @@ class BaseParser:
         # is_required() already honours ignore_required; defaults still apply when required fields are ignored
         for key, field in self.fields.items():
             name = field.attname if as_attname else field.name
-            if name in result:
+            if name in result or name in rejected_fields:
                 continue
             if excluded_keys and name in excluded_keys:
                 continue
